@@ -60,6 +60,7 @@ pub fn run_t<V: Scalar + Hash + PartialEq>(case: &Case, full: bool, fill: u8, ou
     let rec = HashSetMut::<V>::data_len(1) - hdr;
     let align = std::mem::align_of::<V>().max(4);
     let okp = move |a: usize| a % align == 0;
+    let lite = kv(&toks, "lite").is_some();
     let mut phase = 0usize;
     let mut buf;
     if let Some(raw) = kv(&toks, "raw") {
@@ -194,7 +195,12 @@ pub fn run_t<V: Scalar + Hash + PartialEq>(case: &Case, full: bool, fill: u8, ou
                         let t = HashSet::<V>::from_bytes(unsafe { buf.static_ref() });
                         abs_of!(t)
                     };
-                    format!("{};{}", a, iter_sorted::<V>(unsafe { buf.static_ref() }))
+                    // lite=1 (very large sets): the contents projection leaves out the full iteration
+                    if lite {
+                        format!("{};~", a)
+                    } else {
+                        format!("{};{}", a, iter_sorted::<V>(unsafe { buf.static_ref() }))
+                    }
                 })
                 .unwrap_or("PANIC".to_string());
                 out.push_str(&format!("{} r={} d={:016x} abs={}", i, res, fnv(buf.bytes()), abs));
